@@ -744,7 +744,9 @@ class DBUDSServer(UDSServer):
                 query += f"json_extract(r.state, '$.{key}') IS NULL AND "
             else:
                 query += f"json_extract(r.state, '$.{key}') = ? AND "
-                parameters.append(value if isinstance(value, int | float) else json.dumps(value))
+                parameters.append(
+                    value if isinstance(value, int | float | str) else json.dumps(value)
+                )
 
         if self.properties is not None:
             for key, value in self.properties.items():
@@ -753,7 +755,7 @@ class DBUDSServer(UDSServer):
                 else:
                     query += f"json_extract(s.properties_pre, '$.{key}') = ? AND "
                     parameters.append(
-                        value if isinstance(value, int | float) else json.dumps(value)
+                        value if isinstance(value, int | float | str) else json.dumps(value)
                     )
 
         query += "r.request_pdu = ? "
